@@ -808,6 +808,13 @@ class Executor:
                 idx = self.prog.src.variant_index(cand, vname)
                 if idx is not None:
                     return (P.strip_generics(cand) if cand else enum_path, idx, vname)
+        if len(segs) == 1 and dty:
+            # a variant printed without its enum path (e.g. `_0 = Equal;` after `use Ordering::*`): the destination type tells
+            if last_seg(dty) == 'Ordering' and segs[0] in ('Less', 'Equal', 'Greater'):
+                return ('Ordering', {'Less': -1, 'Equal': 0, 'Greater': 1}[segs[0]], None)
+            idx = self.prog.src.variant_index(dty, segs[0])
+            if idx is not None:
+                return (P.strip_generics(dty), idx, segs[0])
         ty = P.strip_generics(dty) if dty and last_seg(dty) == segs[-1] else base
         return (ty, None, None)
 
@@ -1019,6 +1026,14 @@ class Executor:
             raise Unsupported(ent[1])
         target = ent[1]
         if target is not None:
+            if c.startswith('<&'):
+                # a std blanket impl for references (`impl PartialEq<&B> for &A`, PartialOrd, Ord, Display ...) forwarding to the
+                # crate's impl for the referent: its `&self` arguments are references to references - strip one level
+                f = self.prog.module.fns.get(target)
+                if f is not None:
+                    f.parse()
+                    args = [a.get() if isinstance(a, Ref) and isinstance(a.get(), Ref) and i < len(f.arg_tys) and
+                            f.arg_tys[i].startswith('&') and not f.arg_tys[i].startswith('&&') else a for i, a in enumerate(args)]
             return self.call_fn(target, args)
         from . import models
         r = models.dispatch(self, c, args, fr, dest)
